@@ -436,6 +436,75 @@ def copies_cases(tier):
 
 
 # ============================================================================
+# family 2b: the same temp-label body inserted as several FUNCTIONS (register_insert_function),
+# optionally next to ordinary insertions of the same text, in one rewrite
+FUNC_BODIES = {
+    "loop": ".Lloop:\nmovb $1, %bl\nje .Lloop\nret\n",
+    "fwd": "je .Lskip\nmovb $2, %bl\n.Lskip:\nret\n",
+    "data": "leaq .Lconst(%rip), %rax\nret\n.Lconst:\n.byte 7\n",
+}
+
+
+def funcs_case(case):
+    import gtirb
+    from gtirb_test_helpers import add_code_block, add_edge, add_function, add_proxy_block, add_text_section, create_test_module
+
+    from gtirb_rewriting import Constraints, Patch, RewritingContext
+
+    ir, m = create_test_module(gtirb.Module.FileFormat.ELF, gtirb.Module.ISA.X64)
+    _, bi = add_text_section(m, 0x1000)
+    b = add_code_block(bi, b"\x90\xc3")
+    add_edge(ir.cfg, b, add_proxy_block(m), gtirb.Edge.Type.Return)
+    add_function(m, "old", b)
+    import gtirb_functions
+
+    ctx = RewritingContext(m, gtirb_functions.Function.build_functions(m))
+    body = FUNC_BODIES[case["body"]]
+    syms = []
+    diffs = []
+    try:
+        for i in range(case["n"]):
+            syms.append(ctx.register_insert_function("newfn%d" % i, Patch.from_function(lambda c, body=body: body, Constraints())))
+        for _ in range(case["inserts"]):
+            if case["body"] != "data":
+                ctx.insert_at(b, 0, Patch.from_function(lambda c, body=body: body.replace("ret\n", ""), Constraints()))
+        ctx.apply()
+    except Exception as e:
+        return [D("funcs-exception", r_exc=type(e).__name__, r_body=case["body"], msg=str(e)[:120])], "raised"
+    names = [s.name for s in m.symbols]
+    dup = sorted({n for n in names if names.count(n) > 1})
+    if dup:
+        diffs.append(D("funcs-duplicate-symbol-name", r_body=case["body"], names=dup))
+    # every inserted function refers only to labels of its own byte interval
+    for sym in syms:
+        blk = sym.referent
+        fbi = blk.byte_interval if isinstance(blk, gtirb.ByteBlock) else None
+        if fbi is None:
+            diffs.append(D("funcs-symbol-without-block", r_body=case["body"]))
+            continue
+        for off, ex in fbi.symbolic_expressions.items():
+            for s2 in ex.symbols:
+                r = s2.referent
+                if s2.name.startswith(".L") and not (isinstance(r, gtirb.ByteBlock) and r.byte_interval is fbi):
+                    diffs.append(D("funcs-expression-captured-by-another-copy", r_body=case["body"], label=s2.name))
+        for cb in fbi.blocks:
+            if isinstance(cb, gtirb.CodeBlock):
+                for e in cb.outgoing_edges:
+                    if e.label and e.label.type == gtirb.Edge.Type.Branch and isinstance(e.target, gtirb.CodeBlock) and e.target.byte_interval is not fbi:
+                        diffs.append(D("funcs-branch-captured-by-another-copy", r_body=case["body"]))
+    return diffs, "ok:funcs=%d" % case["n"]
+
+
+def funcs_cases(tier):
+    out = []
+    for body in FUNC_BODIES:
+        for n in (1, 2, 3):
+            for ins in (0, 1, 2):
+                out.append({"fam": "funcs", "body": body, "n": n, "inserts": ins})
+    return out
+
+
+# ============================================================================
 # family 3: chunked == whole
 
 
@@ -551,6 +620,7 @@ def tasks(tier):
             if tier == "thorough":
                 for i in range(len(BIND_SMALL)):
                     out.append({"fam": "bind", "allow": allow, "suffix": suffix, "voc": "small", "L": 5, "first": i})
+    out.append({"fam": "funcs", "tier": tier})
     # copies: chunks of 25 rewrites
     cc = copies_cases(tier)
     for i in range(0, len(cc), 25):
@@ -568,7 +638,7 @@ def tasks(tier):
                     for j in range(len(voc)):
                         out.append({"fam": "chunk", "family": fam, "tu": tu, "L": L, "prefix": [i, j]})
     # the cheap families first (they still report if a wall-clock cap cuts the run short), then the long texts
-    out.sort(key=lambda t: (0, 0) if t["fam"] == "copies" else (1, 0) if t["fam"] == "bind" else (2, -t["L"]))
+    out.sort(key=lambda t: (0, 0) if t["fam"] in ("copies", "funcs") else (1, 0) if t["fam"] == "bind" else (2, -t["L"]))
     return out
 
 
@@ -595,6 +665,15 @@ def run_task(task):
                     res.bad(case, diffs)
                 elif nontrivial and L == 3:
                     res.sample(case, cap=1)
+        return res
+    if fam == "funcs":
+        for case in funcs_cases(task["tier"]):
+            diffs, outcome = funcs_case(case)
+            res.case(("funcs", case["body"], case["n"], case["inserts"]), nontrivial=case["n"] + case["inserts"] > 1, outcome=outcome)
+            if diffs:
+                res.bad(case, diffs)
+            elif case["n"] == 2:
+                res.sample(case, cap=1)
         return res
     if fam == "copies":
         for case in _copies_slice(task):
@@ -639,6 +718,8 @@ def replay(case):
         return bind_case(module, mod_syms, tuple(case["toks"]), case["allow"], case["suffix"])[0]
     if fam == "copies":
         return copies_case(case)[0]
+    if fam == "funcs":
+        return funcs_case(case)[0]
     if fam == "chunk":
         module, mod_syms = T.make_module(DIALECT, FMT)
         voc, implicit = CHUNK_FAMILIES[case["family"]]
